@@ -40,13 +40,72 @@ def regenerate():
     r = json.load(open(rep)); os.unlink(rep)
     return r
 
+def srceq_check(engine_names, rep):
+    """Build Generated/SrcEq_<engine>.vo for the engines of a check (under the build lock).  A lemma that does
+    not prove is cut out of the file (so that the others are still checked) and reported with arguments on which
+    the fresh and the reference term differ, when the grid search finds some.
+    Returns {"proved": [...], "failed": [{name, where, source, ref, cex}], "missing": [...], "identical": n, "guards": n}"""
+    res = {"proved": [], "failed": [], "missing": [], "identical": 0, "guards": 0}
+    # sized reuses the array model; its source has no translated guards of its own
+    for e in dict.fromkeys(engine_names):
+        info = rep.get("srceq", {}).get(e)
+        path = os.path.join(COQ, "Generated", "SrcEq_%s.v" % e)
+        if not info or not os.path.exists(path):
+            continue
+        res["guards"] += info["guards"]; res["identical"] += info["identical"]; res["missing"] += info["missing"]
+        todo = list(info["differ"])
+        for _ in range(len(todo) + 1):
+            ok, out = coq_make(["Generated/SrcEq_%s.vo" % e])
+            if ok: break
+            errs = [x for x in coq_errors(out) if x["file"].endswith("SrcEq_%s.v" % e)]
+            if not errs:
+                res["failed"].append({"name": "SrcEq_%s" % e, "where": "", "source": "", "ref": "", "cex": None, "error": out[-300:]}); todo = []; break
+            text = open(path).read().split("\n")
+            name = None
+            for l in text[:errs[0]["line"]][::-1]:
+                m = re.match(r"\(\*BEGIN (\w+)\*\)", l)
+                if m: name = m.group(1); break
+            if name is None or name not in todo:
+                res["failed"].append({"name": "SrcEq_%s" % e, "where": "", "source": "", "ref": "", "cex": None, "error": errs[0]["error"]}); todo = []; break
+            b = text.index("(*BEGIN %s*)" % name); en = text.index("(*END %s*)" % name)
+            text[b:en + 1] = ["(* NOT PROVED equal to the reference: %s *)" % name]
+            open(path, "w").write("\n".join(text))
+            todo.remove(name)
+            d = info["detail"][name]
+            res["failed"].append({"name": name, "where": d["where"], "source": d["source"], "ref": d["ref"], "term": d["term"],
+                                  "cex": find_cex(d), "error": errs[0]["error"][:200]})
+        res["proved"] += todo
+    return res
+
+def find_cex(d):
+    """arguments (machine words, inside the guard's domain) on which the fresh and the reference term differ"""
+    ps = d["params"]; n = len(ps)
+    grid = "cex_grid" if n <= 3 else "cex_grid_small"
+    if n > 6: return None
+    dom = d.get("dom") or "true"
+    probe = os.path.join(COQ, "Generated", "Probe_cex_%d.v" % os.getpid())
+    open(probe, "w").write("From CC Require Import Base.Prelude Base.SrcEq Generated.Constants.\nLocal Open Scope N_scope. Local Open Scope bool_scope.\n"
+        "Eval vm_compute in find_cex %d %s (fun l => match l with [%s] => negb %s || Bool.eqb %s %s | _ => true end).\n"
+        % (n, grid, "; ".join(ps), dom, d["term"], d["ref"]))
+    rc, out = sh(["coqc", "-Q", ".", "CC", probe], cwd=COQ, timeout=300)
+    for ext in ("v", "vo", "vok", "vos", "glob"):
+        try: os.unlink(probe[:-1] + ext)
+        except OSError: pass
+    try: os.unlink(os.path.join(COQ, "Generated", ".Probe_cex_%d.aux" % os.getpid()))
+    except OSError: pass
+    m = re.search(r"= Some\s*\[([^\]]*)\]", out)
+    if rc == 0 and m:
+        vals = [v.strip() for v in m.group(1).split(";") if v.strip()]
+        return dict(zip(ps, vals))
+    return None
+
 def write_coqproject():
     """_CoqProject lists every .v under coq/ except the per-engine Extract.v files (run by hand)."""
     files = []
     for root, dirs, fs in os.walk(COQ):
         dirs.sort()
         for f in sorted(fs):
-            if f.endswith(".v") and f != "Extract.v" and not f.startswith("Dbg_"):
+            if f.endswith(".v") and f != "Extract.v" and not f.startswith("Dbg_") and not f.startswith("Probe_"):
                 files.append(os.path.relpath(os.path.join(root, f), COQ))
     text = "-Q . CC\n" + "\n".join(files) + "\n"
     p = os.path.join(COQ, "_CoqProject")
@@ -172,7 +231,8 @@ def prepare(engines, targets, pid=None):
         model_targets = [t for ent in engines for t in ent[2]]
         mok, mout = coq_make(model_targets) if model_targets else (True, "")
         ok, out = coq_make(targets) if targets else (True, "")
-        res = {"gen": rep, "coq_ok": ok, "coq_out": out, "coq_errors": coq_errors(out) if not ok else [],
+        srceq = srceq_check([ent[0] for ent in engines], rep) if "error" not in rep else {"proved": [], "failed": [{"name": "translator", "where": "", "source": "", "ref": "", "cex": None, "error": rep["error"][-300:]}], "missing": [], "identical": 0, "guards": 0}
+        res = {"gen": rep, "srceq": srceq, "coq_ok": ok, "coq_out": out, "coq_errors": coq_errors(out) if not ok else [],
                "models_ok": mok, "models_out": mout, "drivers": {}}
         for ent in engines:
             name, edir = ent[0], ent[1]
@@ -316,6 +376,17 @@ def load_known(pid=None):
             elif l.startswith("fixed:"):
                 fixed.append(l)
     return kf, fixed
+
+def load_expected_crashes():
+    """signatures engine/op/crash of trace classes that are outside the documented contracts on purpose
+    (the generators include them to check that the model faults exactly where the code has undefined behaviour)"""
+    res = set()
+    p = os.path.join(VERIF, "expected_crashes.txt")
+    if os.path.exists(p):
+        for l in open(p):
+            m = re.match(r"crash:\s+sig=(\S+)", l.strip())
+            if m: res.add(m.group(1))
+    return res
 
 # ------------------------------------------------------------------------------------------------
 # Shrinking
